@@ -7,7 +7,7 @@ TB = ("TLC evaluator + CommunityModules Java overrides; rustc/cargo; rand_core 0
       "my TLA+ transcription of the published algorithms (self-checked by known-answer vectors in MC_Vectors)")
 
 CHECKS = {
-    "C01": dict(cat="model_checking", ref="§4 C01", tech="TLA+ reference semantics (Xoshiro.tla, SplitMix64.tla) evaluated by TLC on recorded implementation traces (trace validation); complete GF(2) basis of seeds",
+    "C01": dict(cat="model_checking", ref="§4 C01", tech="TLA+ reference semantics (Xoshiro.tla, SplitMix64.tla) evaluated by TLC on recorded implementation traces (trace validation); complete GF(2) basis of seeds; part of the corpus again in the release build; start states with structured successors constructed by linear algebra on the code's own step map (inputs only)",
                 text="Every recorded event of the real generators (from_seed, native next, state image via serde) must be a step of the TLA+ reference algorithm; the corpus contains every unit-bit seed of all 14 linear generators, so for the linear engine agreement extends to all 2^n states; scramblers and SplitMix64 finalizers are covered on structured classes and random states (a bound).",
                 note=TB + "; linearity of the implementation's engine is itself only sampled (random seeds must also agree)"),
     "C04": dict(cat="model_checking", ref="§4 C04", tech="TLA+ xor128 reference evaluated by TLC on recorded traces; complete basis of the 128-bit state",
@@ -18,11 +18,11 @@ CHECKS = {
                 note=TB + "; fill lengths for the 256-word buffers are explored in classes around 0, 1 and 2 blocks, not all lengths; seeds are a corpus"),
     "C12": dict(cat="model_checking", ref="§4 C12", tech="TLA+ specification of the Jitterentropy collection (Jitter.tla) evaluated by TLC on recorded traces of JitterRng over scripted timers, incl. every short measurement-level delta sequence over an alphabet chosen for the stuck test; JitterCollect model-checked (reading counts, termination under fairness); full-state conformance through cfg(rngs_verif) accessors",
                 text="Every recorded call of a real JitterRng (next_u32/next_u64/fill_bytes/timer_stats/set_rounds/clone) carries the timer readings it consumed; TLC recomputes priming, every LFSR fold, stuck test, rotation, the stir, the memory-walk position, the pending-half flag, the returned value and the exact number of readings, and rejects the first event that differs.",
-                note=TB + "; scripted timers are a corpus (structured delta patterns + random); where the property leaves Z vs mod-2^32 differences open both are accepted"),
+                note=TB + "; scripted timers are a corpus (structured delta patterns + random); the stuck test's differences are mod 2^32 (the integer reading is rejected); timer scripts with special first values are constructed by solving the code's own (affine) behaviour, as inputs only"),
     "C13": dict(cat="model_checking", ref="§4 C13", tech="TLC exhaustive model checking of the code-shaped test_timer decision against the outcome relation of the property over all boundary summaries; boundary cases realised as timer scripts; trace validation of real test_timer outcomes against the relation",
                 text="The decision (thresholds, lookup table, log2 formula, set_rounds idiom, process-wide cache) is model-checked over every piece of the piecewise-constant estimate; the visited boundary cases become concrete 1601-reading scripts run through the real test_timer and each returned Ok(r)/Err(e) is checked by TLC against the relation recomputed from the readings consumed.",
                 note=TB + "; JitterRng::new() with the platform timer is modelled (cache) but only smoke-run"),
-    "C14": dict(cat="model_checking", ref="§4 C14", tech="total TLA+ specification (every action defined for every argument, one expected panic) as oracle for recorded traces of an overflow-checked build over hostile corpora (timers incl. stalls of 13 500 readings) + native panic scan over 6000 (thorough 60 000) seeds per type, hits replayed and decided by Trace_Full",
+    "C14": dict(cat="model_checking", ref="§4 C14", tech="total TLA+ specification (every action defined for every argument, one expected panic) as oracle for recorded traces of an overflow-checked build over hostile corpora (timers incl. stalls of 13 500 readings) + native panic scan over 6000 (thorough 60 000) seeds per type, hits replayed and decided by Trace_Full; far positions (past 2^16 blocks, Hc128Rng past word 2^32 in an optimised overflow-checked build); a process abort is recorded as a panic of the running operation",
                 text="All operations run under catch_unwind in the dev (overflow-checked) profile over hostile inputs (timer deltas around +-2^31, 2^32, 2^63, wrap-around, decreasing; extreme seeds; fill lengths 0..17, block size +-1); a recorded panic other than set_rounds(0) is a step the total specification cannot take.",
                 note=TB + "; absence of panics is established on the explored corpora, not for all inputs"),
     "C15": dict(cat="model_checking", ref="§4 C15", tech="GF(2) rank / kernel-vector certificate computed by TLC (Gf2.tla) on the pool maps extracted from the code through the cfg(rngs_verif) hook; collisions replayed on the code; six maps incl. the variable-round fold path and one whole collection (next_u64); a non-affine map is decided only by a concrete collision confirmed on the code",
@@ -49,7 +49,7 @@ CHECKS = {
     "C11": dict(cat="model_checking", ref="§4 C11", tech="TLC model checking of CloneEq with Ser/De (negative control: half_used not serialized) + observational trace monitor Trace_Pair over snapshot/restore schedules (bincode and JSON) derived from TLC's state graph",
                 text="Snapshots are taken at every sampled (index, half_used) state of IsaacRng/Isaac64Rng and after random histories/jumps of the 16 plain serializable types, restored through bincode and serde_json, and original, pre-snapshot clone and both restored generators are driven in lock-step across a refill; any divergence, failed deserialization or == false is rejected.",
                 note=TB + "; harness built with the serde features; seeds and histories are a corpus"),
-    "C17": dict(cat="model_checking", ref="§4 C17", tech="trace validation against a TLA+ non-interference specification (Trace_Debug): Debug text as an uninterpreted function of history / public read position (index, half_used from the API machine ApiImpl), learned and enforced by TLC",
+    "C17": dict(cat="model_checking", ref="§4 C17", tech="trace validation against a TLA+ non-interference specification (Trace_Debug): Debug text as an uninterpreted function of history / public read position (index, half_used from the API machine ApiImpl), learned and enforced by TLC; native scan of the text over millions of seeds whose minority texts are replayed as ordinary cases",
                 text="{:?} and {:#?} of the eight state-hiding types are recorded after every operation of walks from TLC's API state graph and random walks, each under several seeds (or timer scripts); TLC rejects two different texts for one (kind, format, history) or one (kind, format, public read position), so any seed- or state-dependent content in the text is detected without fixing the text itself.",
                 note=TB + "; leakage is detected as dependence on seed/state across the seeds of the corpus (>= 5 per history)"),
     "C19": dict(cat="model_checking", ref="§4 C19", tech="TLC model checking of the instance machine (Instances.tla: frame property, solo-run results, process-wide JITTER_ROUNDS cache; negative controls with a global and a thread-local cache) + TLC-enumerated interleavings executed on persistent OS threads with background load; every instance validated by Trace_Stream against a solo twin run in a process of its own; pairs built by different constructors from coinciding arguments; Send/Sync static assertion compiled separately",
